@@ -14,6 +14,13 @@ def negacyclicNat (p : Nat) (a b : List Nat) : List Nat :=
     let neg := (List.range (n - c - 1)).foldl (fun s t => let i := c + 1 + t; (s + A.getD i 0 * B.getD (c + n - i) 0) % p) 0
     (pos + p - neg % p) % p
 
+/-- one coefficient of the negacyclic product (O(n)): used as a sampled oracle at degrees where the full schoolbook
+product is too slow -/
+def negacyclicCoeffNat (p : Nat) (A B : Array Nat) (n c : Nat) : Nat :=
+  let pos := (List.range (c + 1)).foldl (fun s i => (s + A.getD i 0 * B.getD (c - i) 0) % p) 0
+  let neg := (List.range (n - c - 1)).foldl (fun s t => let i := c + 1 + t; (s + A.getD i 0 * B.getD (c + n - i) 0) % p) 0
+  (pos + p - neg % p) % p
+
 def powModN (b e m : Nat) : Nat := Id.run do
   let mut r := 1 % m
   let mut x := b % m
